@@ -67,6 +67,8 @@ class Faults(Relation):
                 'for runs with K solves (per-rank solves of generous/greedy included) every kind in {Infeasible, Unbounded, '
                 'Undefined, Not Solved, time-limit stop with incumbent (PuLP says Optimal; only with a limit)} at sampled '
                 '(quick) / every (thorough) position, once (transient) or from that solve on (persistent), and pairs of '
+                'faults; the time limit handed to the back end at every solve must be the one given to solve() (a limit stop '
+                'is scripted at the limit the back end really got); pairs of '
                 'faults; a third of the runs with solve(threads=2); scripted clock; problems, statuses, texts compared with the '
                 'model; non-trivial = K >= 2 and a '
                 'fault injected')
@@ -78,7 +80,7 @@ class Faults(Relation):
         return run_case(inp)
 
     def term(self, inp, obs):
-        if obs['exc_init']:
+        if obs['exc_init'] or not session.limits_passed_through(obs):
             return 'false'
         return '(c_session %s %s %s %s)' % (lpcommon.head(inp), C.cbool(False), C.cz(obs['t0']),
                                            C.clist([session.crec(r) for r in obs['ops']]))
